@@ -181,6 +181,23 @@ struct ScriptedTransport {
     script: VerifScript,
 }
 
+thread_local! {
+    /// Results of the calls whose result the manager ignores, for every scripted transport of
+    /// this thread: bit 0 `reject` fails, bit 1 `accept_pending` fails, bit 2 `reject_pending`
+    /// fails (`Error::ConnectionDoesntExist`, the only error the real transports return there).
+    static VERIF_EXT_FAILURES: std::cell::Cell<u8> = const { std::cell::Cell::new(0) };
+}
+
+/// Set the results of `reject` / `accept_pending` / `reject_pending` of the scripted transports of
+/// this thread (bit mask, see `VERIF_EXT_FAILURES`).
+pub fn verif_set_ext_failures(mask: u8) {
+    VERIF_EXT_FAILURES.with(|m| m.set(mask));
+}
+
+fn verif_ext_failures() -> u8 {
+    VERIF_EXT_FAILURES.with(|m| m.get())
+}
+
 impl Stream for ScriptedTransport {
     type Item = TransportEvent;
 
@@ -223,16 +240,25 @@ impl Transport for ScriptedTransport {
 
     fn accept_pending(&mut self, connection_id: ConnectionId) -> crate::Result<()> {
         self.script.inner.lock().calls.push(VerifCall::AcceptPending(connection_id.verif_as_usize()));
+        if verif_ext_failures() & 2 != 0 {
+            return Err(Error::ConnectionDoesntExist(connection_id));
+        }
         Ok(())
     }
 
     fn reject_pending(&mut self, connection_id: ConnectionId) -> crate::Result<()> {
         self.script.inner.lock().calls.push(VerifCall::RejectPending(connection_id.verif_as_usize()));
+        if verif_ext_failures() & 4 != 0 {
+            return Err(Error::ConnectionDoesntExist(connection_id));
+        }
         Ok(())
     }
 
     fn reject(&mut self, connection_id: ConnectionId) -> crate::Result<()> {
         self.script.inner.lock().calls.push(VerifCall::Reject(connection_id.verif_as_usize()));
+        if verif_ext_failures() & 1 != 0 {
+            return Err(Error::ConnectionDoesntExist(connection_id));
+        }
         Ok(())
     }
 
